@@ -114,6 +114,8 @@ func runC20(c *Ctx) {
 		_, onlyIfAbsent := c.Guarded(legacyUnesc.In, Extract("1", Op("lookup", "", Any(), Const(httpPath))), false)
 		c.Check(onlyIfAbsent && escFamily(legacyUnesc.X.Name) == "path", "C20.X1-escape-inverse", to.Name+" › legacy httpath", legacyUnesc.In.Pos(), "legacy component used only when http-path is absent, with path unescaping", "legacy httpath component takes precedence over http-path or is unescaped with the wrong family")
 	}
+	legacyPathTranscoder(c, "C20.X1-legacy-path-transcoder")
+	c.Floor("C20.X1-legacy-path-transcoder", 1)
 	c.Floor("C20.X1-escape-inverse", 3)
 
 	// ---- X2 field coverage -------------------------------------------------------------------------
@@ -554,4 +556,80 @@ func firstRetAny(c *Ctx, f *Fn) *X {
 		}
 	}
 	return &X{Op: "nil"}
+}
+
+// legacyPathTranscoder: the legacy "httpath" protocol is registered with a transcoder built from the package's own
+// three functions — string→bytes, bytes→string and a validator (none nil, none a library transcoder that escapes):
+// its values are URL paths already escaped by the publisher, carried byte for byte, and a value containing a raw
+// slash must be refused when the address is built (it would re-split on the wire). Shared by C19 (provider addresses
+// read back identically) and C20 (old-format publisher addresses convert to the URL they name).
+func legacyPathTranscoder(c *Ctx, rule string) {
+	p := c.pkg("maurl")
+	if p == nil {
+		c.Unk(rule, "maurl", token.NoPos, "package not found")
+		return
+	}
+	initFn := c.SSAPkgs[p.PkgPath].Func("init")
+	if initFn == nil {
+		c.Unk(rule, "maurl.init", token.NoPos, "not found")
+		return
+	}
+	var mk *ssa.Call
+	nMk := 0
+	okArgs := false
+	var tcGlobal *ssa.Global
+	instrs(initFn, func(in ssa.Instruction) {
+		call, ok := in.(*ssa.Call)
+		if !ok {
+			return
+		}
+		callee := call.Call.StaticCallee()
+		if callee == nil || callee.Name() != "NewTranscoderFromFunctions" {
+			return
+		}
+		nMk++
+		mk = call
+		okArgs = len(call.Call.Args) == 3
+		for _, a := range call.Call.Args {
+			v := a
+			if ct, isCT := v.(*ssa.ChangeType); isCT {
+				v = ct.X
+			}
+			fn, isFn := v.(*ssa.Function)
+			if !isFn || fn.Pkg == nil || fn.Pkg.Pkg != p.Types {
+				okArgs = false
+			}
+		}
+		if refs := call.Referrers(); refs != nil {
+			for _, r := range *refs {
+				if st, isSt := r.(*ssa.Store); isSt {
+					if g, isG := st.Addr.(*ssa.Global); isG {
+						tcGlobal = g
+					}
+				}
+			}
+		}
+	})
+	used := false
+	instrs(initFn, func(in ssa.Instruction) {
+		st, ok := in.(*ssa.Store)
+		if !ok {
+			return
+		}
+		fa, isFA := st.Addr.(*ssa.FieldAddr)
+		if !isFA {
+			return
+		}
+		stt, isSt := deref(fa.X.Type()).Underlying().(*types.Struct)
+		if !isSt || fa.Field >= stt.NumFields() || stt.Field(fa.Field).Name() != "Transcoder" {
+			return
+		}
+		if mk != nil && st.Val == ssa.Value(mk) {
+			used = true
+		}
+		if ld, isLoad := st.Val.(*ssa.UnOp); isLoad && tcGlobal != nil && ld.X == ssa.Value(tcGlobal) {
+			used = true
+		}
+	})
+	c.Check(nMk == 1 && okArgs && used, rule, "maurl › legacy path protocol's transcoder", initFn.Pos(), "registered with NewTranscoderFromFunctions(own string→bytes, own bytes→string, own validator)", "the legacy httpath protocol is not registered with the package's own transcoder and validator (a library transcoder escapes the already escaped path a second time; without a validator a value with a raw slash is accepted and re-splits on the wire): old-format publisher addresses name another URL, or read back as different addresses")
 }
